@@ -304,6 +304,20 @@ class Check:
     # ---- verdict handling ----
     def _event_of(self, shard, tid, idx):
         """Return (trace, event) for a verdict; sweep files are line-based."""
+        if os.path.basename(shard) == 'cb.json':
+            with open(shard) as f:
+                data = json.load(f)
+            for b in data['backends']:
+                if b['backend'] == tid:
+                    ev = dict(op='apply_branch', a=dict(
+                        backend=tid, file=b['file'],
+                        branch=(b['branches'][idx - 1] if idx >= 1 else 'vocabulary')))
+                    return dict(t=tid, meta={}), ev
+            for kind in ('paths', 'handles'):
+                for i, p in enumerate(data[kind]):
+                    if (p.get('where') or p.get('backend')) == tid and i + 1 == idx:
+                        return dict(t=tid, meta={}), dict(op=kind, a=p)
+            return dict(t=tid, meta={}), dict(op='?', a={})
         if os.path.basename(shard).startswith('sw_'):
             with open(shard) as f:
                 head = json.loads(f.readline())
